@@ -216,6 +216,6 @@ UNITS += [
 META = {"not_covered": [
     "the statement's quantifier (every prefix of every command's storage operations, any single failing operation): only the ordering of the straight-line parts listed under functions is decided",
     "thread pipelines: Packer::new (chunk -> pack), Actor / FileWriterHandle composition (process then index), parallel repack in prune, TreeStreamerOnce",
-    "copy, merge, rewrite, forget, config and key changes; instant-delete and early-delete-index modes of prune (explicit waivers)",
+    "forget, config and key changes (single storage operations); of copy / merge / rewrite only the ordering tails listed under functions; instant-delete + early-delete-index of prune (the documented-unsafe pair the property excludes; every other option set is held to the order)",
     "the repack branch of prune_repository, the header re-reading loop of repair_index and Indexer::finalize itself (elided / stubs)",
 ]}
